@@ -919,6 +919,8 @@ func verifLenIsHeaderPlusLength(p *PathAttribute) bool {
 //@   requires msg != nil
 //@   claims at-call
 //@   at-call msg.Header.Serialize( requires int(msg.Header.Len) == BGP_HEADER_LENGTH + len(b) && called(IsExtendedMessageSerialization)
+// ... and that length, header included, is within the limit of the session
+//@   at-call msg.Header.Serialize( requires BGP_HEADER_LENGTH + len(b) <= maxLen && (maxLen == BGP_MAX_MESSAGE_LENGTH || maxLen == BGP_MAX_EXTENDED_MESSAGE_LENGTH)
 
 // from C08 "what is sent in the OPEN reflects the configuration": the length octets of the OPEN and of its
 // Capabilities parameter say how many octets follow - more than 255 cannot be said (without RFC 9072) and must not
@@ -989,6 +991,18 @@ func verifLenIsHeaderPlusLength(p *PathAttribute) bool {
 //@ func NewTunnelEncapSubTLVEgressEndpoint
 //@   claims post
 //@   ensures result1 == nil ==> result0 != nil && int(result0.Length) == 6 + (address.Is4() ? 4 : 16)
+
+// encoders consult the SEND half of the negotiated ADD-PATH mode (the decoders the RECEIVE half): what is written
+// is what the peer, who negotiated the mirror image, will read
+//@ props C04
+//@ func (*PathAttributeMpUnreachNLRI).Serialize
+//@   requires p != nil
+//@   claims at-call
+//@   at-call IsAddPathEnabled( requires !arg0
+//@ func (*BGPUpdate).Serialize
+//@   requires msg != nil
+//@   claims at-call
+//@   at-call IsAddPathEnabled( requires !arg0
 
 // EVPN I-PMSI route (type 9): what the encoder writes is what Len() announces - RD (8) and Ethernet tag (4), then the
 // extended community directly after them - and the decoder knows the route type its own encoder emits
